@@ -60,8 +60,8 @@ def _all_aliases(col):
     return out
 
 
-def _check_graph(col) -> bool:
-    loader = GriffeLoader(modules_collection=col, search_paths=[Path("/nonexistent")])
+def _check_graph(col, loader=None, external=False) -> bool:
+    loader = loader or GriffeLoader(modules_collection=col, search_paths=[Path("/nonexistent")])
     calls = {"n": 0}
     orig = loader.resolve_module_aliases
 
@@ -73,7 +73,7 @@ def _check_graph(col) -> bool:
 
     loader.resolve_module_aliases = counted
     n_wild_before = sum(1 for a in _all_aliases(col) if a.wildcard)
-    un1, it1 = loader.resolve_aliases(implicit=True, external=False)
+    un1, it1 = loader.resolve_aliases(implicit=True, external=external)
     if sum(1 for a in _all_aliases(col) if a.wildcard) < n_wild_before:
         cover("wildcard-expanded")
     snapshot = []
@@ -127,7 +127,7 @@ def _check_graph(col) -> bool:
                     return fail("chain left partially resolved")
         snapshot.append((a.path, id(a._target) if a._target is not None else None))
     # fixpoint: resolving again changes nothing
-    un2, it2 = loader.resolve_aliases(implicit=True, external=False)
+    un2, it2 = loader.resolve_aliases(implicit=True, external=external)
     if un1 != un2:
         return fail(f"second resolution changes the unresolved set {sorted(un1)} -> {sorted(un2)}")
     snapshot2 = [(a.path, id(a._target) if a._target is not None else None) for a in _all_aliases(col) if not a.wildcard]
@@ -203,3 +203,131 @@ def wildcard_graph(m1: str, n1: str, m3: str, n3: str, w1: str, w2: str, has_w1:
     """Wildcard imports (possibly cyclic / self / from an unloaded module) mixed with plain aliases."""
     col, m, n = _build(m1 + "." + n1, "m.y", m3 + "." + n3, w1, w2, has_w1, has_w2, False)
     return _check_graph(col)
+
+
+# ================================================================================ three modules, cyclic wildcard imports, a real definition
+MODS3 = "mnoq"
+
+
+def _build3(w_m, w_n, w_o, has_m, has_n, has_o, def_first, tail_mod):
+    """m defines function x and may `from <w_m> import *` (before or after the definition); n and o may star-import too;
+    n.t is an ordinary alias to <tail_mod>.x. All three modules are loaded; q is not."""
+    col = ModulesCollection()
+    mods = {}
+    for name in "mno":
+        mods[name] = Module(name)
+        col.set_member(name, mods[name])
+    m, n, o = mods["m"], mods["n"], mods["o"]
+    m.set_member("x", Function("x", lineno=(1 if def_first else 8), endlineno=(2 if def_first else 9)))
+    for mod, w, has in ((m, w_m, has_m), (n, w_n, has_n), (o, w_o, has_o)):
+        if has:
+            mod.set_member(w + "/*", Alias(w + "/*", w, lineno=5, endlineno=5))
+    n.set_member("t", Alias("t", tail_mod + ".x", lineno=7, endlineno=7))
+    return col, m
+
+
+@obligation(
+    pid="C06", name="wildcard_cycle3",
+    pre=lambda w_m, w_n, w_o, has_m, has_n, has_o, def_first, tail_mod: seg(w_m, MODS3) and seg(w_n, MODS3) and seg(w_o, MODS3) and seg(tail_mod, MODS3) and (has_m or has_n or has_o)
+    and (TIER == "thorough" or (has_m and tail_mod in "mo")),
+    shards=lambda: [(f"w_m={a},w_n={b},w_o={c}", (lambda a, b, c: lambda **kw: kw["w_m"] == a and kw["w_n"] == b and kw["w_o"] == c)(a, b, c)) for a in MODS3 for b in MODS3 for c in MODS3],
+    timeout=tiered(250, 900),
+    drives=[GriffeLoader.expand_wildcards, GriffeLoader._expand_wildcard, GriffeLoader.resolve_aliases, GriffeLoader.resolve_module_aliases, Alias.resolve_target, prop(Alias, "final_target")],
+    bounds={"modules": "m (defines function x), n (alias t -> <tail>.x), o loaded; q not loaded", "wildcard imports": "one per module, each optional, from a solver-chosen module (self, 2- and 3-cycles included)",
+            "placement": "x defined before or after m's star import", "quick restriction": "m always has its wildcard import; tail alias targets m.x or o.x"},
+    value_symbolic=["w_m, w_n, w_o (module named by each wildcard import)", "has_m, has_n, has_o", "def_first", "tail_mod"], stubs=STUBS + ["ModuleFinder search path = /nonexistent (no disk access)"],
+    must_cover=["resolved", "wildcard-expanded", "definition-survives"],
+    grid=lambda seed: [dict(w_m=a, w_n=b, w_o=c, has_m=True, has_n=True, has_o=True, def_first=d, tail_mod=t) for (a, b, c, d, t) in [("n", "o", "q", True, "m"), ("n", "o", "q", False, "o"), ("q", "m", "n", True, "o")]],
+)
+def wildcard_cycle3(w_m: str, w_n: str, w_o: str, has_m: bool, has_n: bool, has_o: bool, def_first: bool, tail_mod: str) -> bool:
+    """Cyclic wildcard imports over three modules around a real definition: resolution terminates, every alias resolves to the real
+    object or reports one of the two errors, no chain is left (partially) resolved into a cycle, and the definition itself is never lost."""
+    col, m = _build3(w_m, w_n, w_o, has_m, has_n, has_o, def_first, tail_mod)
+    if not _check_graph(col):
+        return False
+    x = m.members.get("x")
+    if x is None:
+        return fail("m.x disappeared")
+    if not x.is_alias:
+        cover("definition-survives")
+    return True
+
+
+# ================================================================================ side-loading of external packages during resolution
+PKGS = "tprq"  # t(op) is loaded; p and r can be loaded on demand; q cannot
+SNAMES = "afz"  # a: the package's alias, f: its function, z: undefined
+
+
+class _SideLoader(GriffeLoader):
+    """GriffeLoader whose `load` takes packages from an in-memory registry (no disk): what resolve_aliases(external=True) calls to side-load."""
+
+    def __init__(self, registry, **kw):
+        super().__init__(**kw)
+        self._registry = registry
+        self.loaded = []
+
+    def load(self, objspec, *a, **k):  # noqa: ARG002
+        name = str(objspec)
+        if name in self._registry and name not in self.modules_collection.members:
+            mod = self._registry[name]()
+            self.modules_collection.set_member(name, mod)
+            self.loaded.append(name)
+            return mod
+        raise ModuleNotFoundError(name)
+
+
+def _pkg(name, alias_target):
+    def build():
+        mod = Module(name)
+        mod.set_member("f", Function("f", lineno=1, endlineno=2))
+        mod.set_member("a", Alias("a", alias_target, lineno=3, endlineno=3))
+        return mod
+
+    return build
+
+
+@obligation(
+    pid="C06", name="side_loading",
+    pre=lambda p1, n1, p2, n2, p3, n3, p4, n4: all(seg(x, PKGS) for x in (p1, p2, p3, p4)) and all(seg(x, SNAMES) for x in (n1, n2, n3, n4))
+    # quick: t.b is pinned to p.z (an alias that can never resolve keeps the unresolved set non-empty - the ingredient of the fixpoint test); names a / f only
+    and (TIER == "thorough" or (p2 == "p" and n2 == "z" and n1 != "z" and n3 != "z" and n4 != "z")),
+    shards=lambda: [(f"t.a->{a}.*,p.a->{b}.*", (lambda a, b: lambda **kw: kw["p1"] == a and kw["p3"] == b)(a, b)) for a in PKGS for b in PKGS],
+    timeout=tiered(250, 900),
+    drives=[GriffeLoader.resolve_aliases, GriffeLoader.resolve_module_aliases, Alias.resolve_target],
+    bounds={"packages": "t loaded with aliases a -> <p1>.<n1>, b -> <p2>.<n2>; p (alias a -> <p3>.<n3>, function f) and r (alias a -> <p4>.<n4>, function f) loadable on demand; q not loadable",
+            "names": "a (the package's alias), f (its function), z (undefined)", "resolution": "resolve_aliases(implicit=True, external=True), twice"},
+    value_symbolic=["the four alias targets (package and name of each)"], stubs=STUBS + ["GriffeLoader.load takes packages from an in-memory registry (what resolve_aliases(external=True) calls to side-load a package)"],
+    must_cover=["resolved", "unresolvable", "side-loaded-2-packages"],
+    grid=lambda seed: [dict(p1="p", n1="a", p2="t", n2="a", p3="r", n3="f", p4="q", n4="z"), dict(p1="p", n1="a", p2="r", n2="a", p3="r", n3="a", p4="t", n4="b"), dict(p1="q", n1="f", p2="p", n2="f", p3="p", n3="f", p4="p", n4="a")],
+)
+def side_loading(p1: str, n1: str, p2: str, n2: str, p3: str, n3: str, p4: str, n4: str) -> bool:
+    """Resolution with side-loading reaches a fixpoint: whatever the import chain over the packages, one call resolves everything that can be resolved and a second call changes nothing."""
+    col = ModulesCollection()
+    loader = _SideLoader({"p": _pkg("p", p3 + "." + n3), "r": _pkg("r", p4 + "." + n4)}, modules_collection=col, search_paths=[Path("/nonexistent")])
+    t = Module("t")
+    col.set_member("t", t)
+    t.set_member("f", Function("f", lineno=1, endlineno=2))
+    t.set_member("a", Alias("a", p1 + "." + n1, lineno=3, endlineno=3))
+    t.set_member("b", Alias("b", p2 + "." + n2, lineno=4, endlineno=4))
+    ok = _check_graph(col, loader=loader, external=True)
+    if ok and len(loader.loaded) == 2:
+        cover("side-loaded-2-packages")
+    if ok:
+        # completeness: nothing whose whole chain is loaded may be reported unresolved
+        table = {"t": {"f": None, "a": (p1, n1), "b": (p2, n2)}, "p": {"f": None, "a": (p3, n3)}, "r": {"f": None, "a": (p4, n4)}}
+
+        def reachable(pk, nm, seen):
+            if pk not in table or nm not in table[pk] or pk not in col.members:
+                return False
+            tg = table[pk][nm]
+            if tg is None:
+                return True
+            if (pk, nm) in seen:
+                return False
+            return reachable(tg[0], tg[1], seen + [(pk, nm)])
+
+        for pk in col.members:
+            for nm, tg in table[pk].items():
+                if tg is not None and reachable(pk, nm, []) and not col.members[pk].members[nm].resolved:
+                    return fail(f"{pk}.{nm} -> {'.'.join(tg)}: its whole chain is loaded, yet it is left unresolved after resolve_aliases(external=True)")
+    return ok
